@@ -191,14 +191,23 @@ def first_diff(a: bytes, b: bytes) -> int:
 
 # ---------------------------------------------------------------------------------------------- interpreter
 
+# Archive base names: the part before `_dir.vpk` / `.vpk`.  Several end in one of the characters of "_dir" (sound, hud,
+# custom_mod) - a prefix computed by stripping characters instead of the suffix goes wrong exactly there.
+BASES = ['x', 'x', 'sound', 'hud', 'custom_mod', 'pak01', 'dir', 'Mixed_Case', 'a.b', 'r']
+
+
+def arch_filename(base: str, single: bool) -> str:
+    return base + '.vpk' if single else base + '_dir.vpk'
+
+
 class Machine:
     """Runs one history against the real VPK class and the reference model."""
 
-    def __init__(self, ctx, single: bool, tmp: str, allow_fail: bool = False) -> None:
+    def __init__(self, ctx, single: bool, tmp: str, allow_fail: bool = False, base: str = 'x') -> None:
         self.ctx = ctx
         self.single = single
         self.tmp = tmp
-        self.path = os.path.join(tmp, 'x.vpk' if single else 'x_dir.vpk')
+        self.path = os.path.join(tmp, arch_filename(base, single))
         self.allow_fail = allow_fail
         self.disk_state = 'absent'        # absent | empty (0-byte file made by VPK()) | valid
         self.disk_model: dict = {}
@@ -227,7 +236,7 @@ class Machine:
 
     # ---- context for messages
     def where(self) -> str:
-        return (f'[{"single x.vpk" if self.single else "x_dir.vpk"} mode={self.mode!r} dir_data_limit={self.limit!r} '
+        return (f'[{os.path.basename(self.path)} mode={self.mode!r} dir_data_limit={self.limit!r} '
                 f'step={self.step} cmd={self.cmd!r}]')
 
     # ---- sessions
@@ -629,7 +638,8 @@ class Machine:
 
 def run_history(desc, ctx, allow_fail: bool = False) -> Machine:
     tmp = tempfile.mkdtemp(prefix='verif_c13_')
-    m = Machine(ctx, bool(desc['single']), tmp, allow_fail=allow_fail)
+    m = Machine(ctx, bool(desc['single']), tmp, allow_fail=allow_fail, base=desc.get('base', 'x'))
+    ctx.label('base:' + ('x' if desc.get('base', 'x') == 'x' else 'ends_in_dir_chars' if desc['base'][-1:] in '_dir' else 'other'))
     names = desc['names']
     try:
         try:
@@ -744,6 +754,7 @@ def history_strategy(tier: str, *, names, limits, archs, over_archs, max_size, s
     cmds.extend(extra_cmds)
     return st.fixed_dictionaries({
         'single': st.sampled_from(singles),
+        'base': st.sampled_from(BASES),
         'names': names,
         'open0': open_args(['w', 'a'], limits).map(list),
         'cmds': st.lists(st.one_of(*cmds).map(list), min_size=1, max_size=max_cmds),
@@ -952,6 +963,7 @@ def bigdir_strategy(tier: str):
     """Archives whose directory tree is larger than any I/O buffer (hundreds to thousands of entries)."""
     return st.fixed_dictionaries({
         'single': st.booleans(),
+        'base': st.sampled_from(BASES),
         'n': st.sampled_from([150, 400, 900, 1700, 2600] if tier == 'quick' else [150, 400, 900, 1700, 2600, 5000]),
         'folders': st.integers(1, 40),
         'exts': st.integers(1, 6),
@@ -967,7 +979,7 @@ def execute_bigdir(desc, ctx):
     from srctools.vpk import VPK
     tmp = tempfile.mkdtemp(prefix='verif_c13_')
     try:
-        path = os.path.join(tmp, 'x.vpk' if desc['single'] else 'x_dir.vpk')
+        path = os.path.join(tmp, arch_filename(desc.get('base', 'x'), desc['single']))
         model = {}
         pad = 'p' * desc['pad']
         with VPK(path, mode='w', dir_data_limit=desc['limit']) as vpk:
@@ -1016,7 +1028,7 @@ def execute_bigdir(desc, ctx):
 SUBCHECKS = [
     Sub('placement', execute_placement, strategy=placement_strategy, quick=1600, thorough=40000, floor=50,
         quick_shards=8, thorough_shards=16,
-        must_hit=('loc:preload', 'loc:tail', 'loc:numbered', 'loc:single-preload', 'loc:single-tail', 'split',
+        must_hit=('base:ends_in_dir_chars', 'loc:preload', 'loc:tail', 'loc:numbered', 'loc:single-preload', 'loc:single-tail', 'split',
                   'size>=64k', 'limit:none', 'limit:over64k', 'loc:tail|lim:none', 'loc:numbered|lim:over64k',
                   'op:add', 'op:new', 'op:over', 'op:del', 'open:w', 'open:a', 'open:r',
                   'end:write', 'end:exit', 'end:abandon', 'arch:None', 'arch:dflt', 'arch:999')),
